@@ -68,6 +68,9 @@ func (s *solo) macroEmbargo() bool {
 	}
 	h := imps[s.rng.Intn(len(imps))]
 	lh := locs[s.rng.Intn(len(locs))]
+	if !s.settleBoot(h) {
+		return false
+	}
 	kind := wEchoParam
 	if s.rng.Chance(1, 4) {
 		kind = wPromiseLoop
@@ -154,7 +157,12 @@ func (s *solo) macroEmbargo() bool {
 	}
 	// one sender goroutine issues them in order; they may block until the
 	// peer answers the Disembargo, which happens in later pumps
+	atomic.StoreInt32(&a.busy, 1)
+	if hcap != nil {
+		s.busyHandle[hcap.ID] = a
+	}
 	s.async("late embargo calls", func() {
+		defer atomic.StoreInt32(&a.busy, 0)
 		for _, lc := range lates {
 			ctx, cancel := context.WithCancel(context.Background())
 			lc.ac.cancel = cancel
